@@ -68,6 +68,10 @@ pub struct Case {
     pub dest: Dest,
     pub gas: GasC,
     pub authorised: bool,
+    /// (harness token only) the token was already deployed remotely once under other, valid metadata and
+    /// was renamed afterwards: the announcement must carry the *current* metadata
+    #[serde(default)]
+    pub renamed_after_earlier_deployment: bool,
 }
 
 fn its_meta(k: u8) -> (Vec<u8>, Vec<u8>, u32) {
@@ -108,7 +112,7 @@ impl Property for C18 {
         "C18"
     }
     fn rule(&self) -> &'static str {
-        "proptest single cases: token (ITS-deployed with 5 metadata classes incl. multi-byte names, decimals 0/255, 32/33-byte strings; Stellar asset contract registered as canonical; harness token with metadata ok / multi-byte / decimals 255 / empty name / empty symbol / decimals 256 registered as canonical; ITS-deployed token addressed through the canonical entry point; unregistered salt / asset) x caller (original deployer, another address reusing the salt) x destination (trusted, never trusted, removed again, the hub chain itself, empty, a trusted name in another letter case / with a trailing space) x gas (0, negative, affordable, exact balance, balance+1) x payer authorised or not. Oracle: success iff id registered for the caller's own (deployer,salt) / the canonical address, destination trusted, metadata representable, payer authorised a positive affordable payment; then returned id = independent derivation, exactly one contract_called to the hub whose payload equals the harness's own ABI encoding of SendToHub{destination, Deploy{id,name,symbol,decimals,no minter}}, a gas payment event with the same payload hash, payer and amount, one service event naming the id and the actual metadata, and the only balance change is the gas payment; otherwise failure with the ledger snapshot identical. non-trivial = every case except the suite's fixed happy path; distinct by Debug hash"
+        "proptest single cases: token (ITS-deployed with 5 metadata classes incl. multi-byte names, decimals 0/255, 32/33-byte strings; Stellar asset contract registered as canonical; harness token with metadata ok / multi-byte / decimals 255 / empty name / empty symbol / decimals 256 registered as canonical, optionally renamed after an earlier remote deployment under other metadata; ITS-deployed token addressed through the canonical entry point; unregistered salt / asset) x caller (original deployer, another address reusing the salt) x destination (trusted, never trusted, removed again, the hub chain itself, empty, a trusted name in another letter case / with a trailing space) x gas (0, negative, affordable, exact balance, balance+1) x payer authorised or not. Oracle: success iff id registered for the caller's own (deployer,salt) / the canonical address, destination trusted, metadata representable, payer authorised a positive affordable payment; then returned id = independent derivation, exactly one contract_called to the hub whose payload equals the harness's own ABI encoding of SendToHub{destination, Deploy{id,name,symbol,decimals,no minter}}, a gas payment event with the same payload hash, payer and amount, one service event naming the id and the actual metadata, and the only balance change is the gas payment; otherwise failure with the ledger snapshot identical. non-trivial = every case except the suite's fixed happy path; distinct by Debug hash"
     }
     fn cases(&self, tier: Tier) -> u64 {
         tier.pick(15000, 150000)
@@ -120,18 +124,20 @@ impl Property for C18 {
             prop_oneof![6 => Just(Dest::Trusted), 1 => Just(Dest::NeverTrusted), 1 => Just(Dest::Removed), 1 => Just(Dest::HubItself), 1 => Just(Dest::Empty), 1 => Just(Dest::TrustedOtherCase), 1 => Just(Dest::TrustedTrailingSpace)],
             prop_oneof![1 => Just(GasC::Zero), 1 => Just(GasC::Negative), 5 => (1u16..500).prop_map(GasC::Affordable), 1 => Just(GasC::ExactBalance), 1 => Just(GasC::BalancePlusOne)],
             prop_oneof![6 => Just(true), 1 => Just(false)],
+            prop_oneof![2 => Just(false), 1 => Just(true)],
         )
-            .prop_map(|(tok, who, dest, gas, authorised)| Case { tok, who, dest, gas, authorised })
+            .prop_map(|(tok, who, dest, gas, authorised, renamed_after_earlier_deployment)| Case { tok, who, dest, gas, authorised, renamed_after_earlier_deployment })
             .boxed()
     }
     fn fixed_cases(&self, _tier: Tier) -> Vec<Case> {
         let mut v = vec![];
         for k in 0..6 {
-            v.push(Case { tok: Tok::Probe(k), who: Who::OriginalDeployer, dest: Dest::Trusted, gas: GasC::Affordable(3), authorised: true });
+            v.push(Case { tok: Tok::Probe(k), who: Who::OriginalDeployer, dest: Dest::Trusted, gas: GasC::Affordable(3), authorised: true, renamed_after_earlier_deployment: false });
+            v.push(Case { tok: Tok::Probe(k), who: Who::OriginalDeployer, dest: Dest::Trusted, gas: GasC::Affordable(3), authorised: true, renamed_after_earlier_deployment: true });
         }
         for k in 0..5 {
-            v.push(Case { tok: Tok::ItsDeployed(k), who: Who::OriginalDeployer, dest: Dest::Trusted, gas: GasC::Affordable(3), authorised: true });
-            v.push(Case { tok: Tok::ItsDeployed(k), who: Who::OtherReusingSalt, dest: Dest::Trusted, gas: GasC::Affordable(3), authorised: true });
+            v.push(Case { tok: Tok::ItsDeployed(k), who: Who::OriginalDeployer, dest: Dest::Trusted, gas: GasC::Affordable(3), authorised: true, renamed_after_earlier_deployment: false });
+            v.push(Case { tok: Tok::ItsDeployed(k), who: Who::OtherReusingSalt, dest: Dest::Trusted, gas: GasC::Affordable(3), authorised: true, renamed_after_earlier_deployment: false });
         }
         v
     }
@@ -181,9 +187,24 @@ impl Property for C18 {
             }
             Tok::Probe(k) => {
                 let (n, s, d, ok) = probe_meta(k);
-                let a = env.register(MetaToken, (sstr_bytes(env, &n), sstr_bytes(env, &s), d));
-                env.mock_all_auths();
-                w.its.client.register_canonical_token(&a);
+                let a = if case.renamed_after_earlier_deployment {
+                    // registered and deployed remotely once as "Old Name"/"OLD"/3, renamed afterwards
+                    let a = env.register(MetaToken, (sstr(env, "Old Name"), sstr(env, "OLD"), 3u32));
+                    env.mock_all_auths_allowing_non_root_auth();
+                    w.its.client.register_canonical_token(&a);
+                    // paid for by a third account, so that the studied call's balances are untouched
+                    w.fund_gas(&w.users[2], 1);
+                    env.mock_all_auths_allowing_non_root_auth();
+                    w.its.client.deploy_remote_canonical_token(&a, &sstr(env, "ethereum"), &w.users[2], &Token { address: w.gas_asset.clone(), amount: 1 });
+                    crate::probes::MetaTokenClient::new(env, &a).set_metadata(&sstr_bytes(env, &n), &sstr_bytes(env, &s), &d);
+                    cx.label("renamed_after_earlier_remote_deployment");
+                    a
+                } else {
+                    let a = env.register(MetaToken, (sstr_bytes(env, &n), sstr_bytes(env, &s), d));
+                    env.mock_all_auths();
+                    w.its.client.register_canonical_token(&a);
+                    a
+                };
                 representable = ok;
                 meta = Some((n, s, d));
                 token_addr = Some(a);
